@@ -1471,3 +1471,39 @@ def c09_window(kind, times=None, begin=None, end=None, groups=None, pass_num_gro
             if not np.array_equal(out[:, :, mem], ref):
                 probs.append(f"group {g}: grouped result differs from the ungrouped SPI of the group's sub-series")
     return {"violates": bool(probs), "why": probs[:3]}
+
+
+def c17_accessor(which, xx, nodata, window, dtype, nodata_from, groups=None):
+    import xarray as xr
+    import hdc.algo  # noqa
+    n = len(xx)
+    lo, hi = np.iinfo(dtype).min, np.iinfo(dtype).max
+    trials = [(list(xx), int(nodata))]
+    for sent in (hi, lo, -99999999 if lo < -99999999 else lo, 16777217 if hi > 16777217 else hi):
+        trials.append(([sent if i % 2 == 0 else (i + 1) for i in range(n)], sent))
+        trials.append(([sent] * n, sent))
+    for vals, nd in trials:
+        data = np.array(vals, dtype=dtype).reshape(n, 1, 1)
+        attrs = {"nodata": nd} if nodata_from == "attrs" else {}
+        da = xr.DataArray(data, dims=("time", "y", "x"), attrs=attrs)
+        kw = {} if nodata_from == "attrs" else {"nodata": nd}
+        if which == "rolling":
+            res = da.hdc.rolling.sum(window, **kw).transpose("time", ...).values[:, 0, 0]
+            if len(res) != n - window + 1:
+                return {"violates": True, "why": f"{len(res)} results for n={n}, window={window}"}
+            for k, o in enumerate(res):
+                win = vals[k:k + window]
+                valid = [v for v in win if v != nd]
+                s = float(np.float32(sum(valid)))
+                ndf = float(np.float32(nd))
+                ok = (o == s) if len(valid) == len(win) else ((o == ndf) if not valid else (o == ndf or o == s))
+                if not ok:
+                    return {"violates": True, "why": f"dtype={dtype} nodata={nd} window={win}: got {float(o)}", "xx": vals}
+        else:
+            res = da.hdc.algo.mean_grp(np.array(groups, dtype="int16"), **kw).transpose("time", ...).values[:, 0, 0]
+            for i in range(n):
+                mem = [vals[j] for j in range(n) if groups[j] == groups[i] and vals[j] != nd]
+                exp = (sum(mem) / len(mem)) if mem else nd
+                if abs(float(res[i]) - exp) > 1e-6 * max(1.0, abs(exp)):
+                    return {"violates": True, "why": f"mean_grp dtype={dtype} nodata={nd}: cell {i} got {float(res[i])}, expected {exp}", "xx": vals}
+    return {"violates": False}
